@@ -100,7 +100,7 @@ func runC17(c *engine.Case) engine.Result {
 	var want bool
 	noEqVerdict := false
 	if o.Eps > 0 {
-		noEqVerdict = o.Eps != 0.5 && ref.NearBoundary(aV, bV, o.Eps)
+		noEqVerdict = ref.NearBoundary(aV, bV, o.Eps)
 		want = ref.EqualEps(aV, bV, o.Eps)
 	} else {
 		want = ref.Equal(aV, bV, o.Reading)
